@@ -575,13 +575,18 @@ func zzC10TraceNote(tag string, tr []int) {
 //
 //	possSkip:  a primary and at least two :around methods are applicable (the defect shows iff the
 //	           first of them continues: firstAround is its marker id)
-//	noPrimary: some method is applicable but no primary
+//	noPrimary: an :around method is applicable but no primary (open finding
+//	           C10-no-primary-around-runs: the :around is entered instead of no-applicable-method)
+//	daemonsOnly: only :before/:after methods are applicable (the former part of the region
+//	           C10-no-primary-runs-daemons repaired by slip commit 61b7d1b: asserted like any call)
 //	possPrimNext: the most specific primary (marker firstPrim) has a next primary or runs under an
-//	           :around (the defect shows iff it calls call-next-method)
+//	           :around (the defect C10-primary-call-next-method, fixed by slip commit b77e05f, showed
+//	           iff it calls call-next-method; the vrt.Carve of a fixed finding is a no-op)
 type zzC10Reg struct {
 	possSkip     bool
 	firstAround  int
 	noPrimary    bool
+	daemonsOnly  bool
 	possPrimNext bool
 	firstPrim    int
 }
@@ -610,7 +615,8 @@ func zzC10Regions(t *zzC10Table, ord []int) (r zzC10Reg) {
 			nPrim++
 		}
 	}
-	r.noPrimary = nPrim == 0 && anyOther
+	r.noPrimary = nPrim == 0 && 1 <= nAround
+	r.daemonsOnly = nPrim == 0 && nAround == 0 && anyOther
 	r.possSkip = 0 < nPrim && 2 <= nAround
 	r.possPrimNext = 2 <= nPrim || (1 <= nPrim && 1 <= nAround)
 	return
@@ -625,7 +631,8 @@ func (g *zzC10Gen) dirty(r zzC10Reg) bool {
 
 const (
 	zzC10CarveSkip  = "C10-around-skipped"
-	zzC10CarveNoPri = "C10-no-primary-runs-daemons"
+	zzC10CarveDaemo = "C10-no-primary-runs-daemons" // fixed (61b7d1b) for calls without an applicable :around
+	zzC10CarveNoPri = "C10-no-primary-around-runs"  // what remains: no primary but an :around
 	zzC10CarvePrim  = "C10-primary-call-next-method"
 )
 
@@ -669,10 +676,11 @@ func (g *zzC10Gen) checkCall(scope *slip.Scope, t *zzC10Table, argClasses []int,
 	switch carve {
 	case 1:
 		vrt.Carve(zzC10CarveSkip, inSkip)
+		vrt.Carve(zzC10CarveDaemo, reg.daemonsOnly)
 		vrt.Carve(zzC10CarveNoPri, nop)
 		vrt.Carve(zzC10CarvePrim, inPrim)
 	case 2:
-		if nop || inPrim { // the around-skipped region is fixed (0ee40b9): compared again
+		if nop { // the around-skipped (0ee40b9) and primary-call-next-method (b77e05f) regions are fixed: compared again
 			zzC10St.trace = nil
 			zzC10St.used = [zzC10MaxID]bool{}
 			zzC10Invoke(scope, g.name, args)
